@@ -1,7 +1,7 @@
 (* C13: complete enumeration of the finite domain of Conc/CancelScopeDomain.v (3 x 285 x 25 = 21 375 runs of the
    machine), lifted to universally quantified statements with forallb_forall. *)
 From Coq Require Import List Arith Bool.
-From EN Require Import Conc.CancelScope Conc.CancelScopeDomain.
+From EN Require Import Conc.CancelScope Conc.CancelScopeDomain Proofs.C13_core Proofs.C13_inv.
 Import ListNotations.
 
 Definition all9 (b1 b2 b3 b4 b5 b6 b7 b8 b9 : bool) : bool := b1 && b2 && b3 && b4 && b5 && b6 && b7 && b8 && b9.
@@ -10,10 +10,10 @@ Lemma all9_true : forall b1 b2 b3 b4 b5 b6 b7 b8 b9, all9 b1 b2 b3 b4 b5 b6 b7 b
 Proof. intros [] [] [] [] [] [] [] [] []; simpl; intro H; try discriminate; repeat split. Qed.
 
 Definition check_state (fx fb : bool) (p : prog) (st : state) : bool :=
-  all9 (finished st) (negb (g_abort st))
+  all9 (finished st && no_active_scope st) (negb (g_abort st))
        (negb (g_late st))
        (negb (g_shbroken st))
-       (negb (g_lost st))
+       (fb || negb (g_lost st))
        (negb (shield_free p && catch_free p && (1 <=? g_ext st) && never_called st) || cancelled_out st)
        (fb || negb (shield_free p && catch_free p && (1 <=? g_ext st)) || cancelled_out st)
        (Nat.eqb (g_floor st) 0)
@@ -43,8 +43,8 @@ Lemma check_run_unfold : forall fl p pos,
 Proof. intros. unfold check_run. reflexivity. Qed.
 
 Lemma check_state_facts : forall fx fb p st, check_state fx fb p st = true ->
-  (finished st = true /\ g_abort st = false) /\
-  g_late st = false /\ g_shbroken st = false /\ g_lost st = false /\
+  (finished st = true /\ no_active_scope st = true /\ g_abort st = false) /\
+  g_late st = false /\ g_shbroken st = false /\ (fb = false -> g_lost st = false) /\
   (shield_free p = true -> catch_free p = true -> 1 <= g_ext st -> never_called st = true -> cancelled_out st = true) /\
   (fb = false -> shield_free p = true -> catch_free p = true -> 1 <= g_ext st -> cancelled_out st = true) /\
   g_floor st = 0 /\ (fx = true -> g_leak st = 0).
@@ -52,11 +52,12 @@ Proof.
   intros fx fb p st H. unfold check_state in H. apply all9_true in H.
   destruct H as (H1 & H2 & H3 & H4 & H5 & H6 & H7 & H8 & H9).
   repeat split.
-  - exact H1.
+  - apply andb_prop in H1. apply H1.
+  - apply andb_prop in H1. apply H1.
   - apply negb_true_iff. exact H2.
   - apply negb_true_iff. exact H3.
   - apply negb_true_iff. exact H4.
-  - apply negb_true_iff. exact H5.
+  - intros F. apply orb_prop in H5. destruct H5 as [X|X]; [congruence|apply negb_true_iff; exact X].
   - intros A B E N. apply orb_prop in H6. destruct H6 as [X|X]; [|exact X].
     apply negb_true_iff in X. apply Nat.leb_le in E. rewrite A, B, E, N in X. discriminate.
   - intros F A B E. apply orb_prop in H7. destruct H7 as [X|X]; [|exact X].
@@ -68,9 +69,10 @@ Qed.
 
 Lemma bounded_facts : forall fx fb p pos,
   In (fx, fb) bounded_flags -> In p bounded_programs -> In pos bounded_positions ->
-  (finished (bounded_run fx fb p pos) = true /\ g_abort (bounded_run fx fb p pos) = false) /\
+  (finished (bounded_run fx fb p pos) = true /\ no_active_scope (bounded_run fx fb p pos) = true /\
+   g_abort (bounded_run fx fb p pos) = false) /\
   g_late (bounded_run fx fb p pos) = false /\ g_shbroken (bounded_run fx fb p pos) = false /\
-  g_lost (bounded_run fx fb p pos) = false /\
+  (fb = false -> g_lost (bounded_run fx fb p pos) = false) /\
   (shield_free p = true -> catch_free p = true -> 1 <= g_ext (bounded_run fx fb p pos) ->
    never_called (bounded_run fx fb p pos) = true -> cancelled_out (bounded_run fx fb p pos) = true) /\
   (fb = false -> shield_free p = true -> catch_free p = true -> 1 <= g_ext (bounded_run fx fb p pos) ->
@@ -81,4 +83,23 @@ Proof.
   pose proof (check_run_true (fx, fb) p pos Hf Hp Hpos) as H.
   rewrite check_run_unfold in H. cbn [fst snd] in H.
   exact (check_state_facts _ _ _ _ H).
+Qed.
+
+Lemma acct_bounded_run : forall fx fb p pos, acct (bounded_run fx fb p pos).
+Proof. intros. unfold bounded_run. apply acct_reachable. Qed.
+
+Local Opaque bounded_run.
+
+(* on the enumerated domain, with the repair of F1: cancelling() at the end = controller cancels that were accepted *)
+Lemma bounded_no_leftover : forall fb p pos,
+  In (true, fb) bounded_flags -> In p bounded_programs -> In pos bounded_positions ->
+  t_cnt (bounded_run true fb p pos) = g_ext (bounded_run true fb p pos).
+Proof.
+  intros fb p pos Hf Hp Hpos.
+  destruct (bounded_facts true fb p pos Hf Hp Hpos) as ((_ & Hn & _) & _ & _ & _ & _ & _ & Hfl & Hlk).
+  pose proof (acct_bounded_run true fb p pos) as A. unfold acct in A.
+  assert (Hz : owed_sum (scopes (bounded_run true fb p pos)) = 0).
+  { apply owed_sum_zero. intros s Hs. unfold no_active_scope in Hn.
+    pose proof (proj1 (forallb_forall _ _) Hn s Hs) as Hx. apply negb_true_iff. exact Hx. }
+  rewrite Hz, Hfl, (Hlk eq_refl) in A. rewrite A. rewrite !Nat.add_0_r. reflexivity.
 Qed.
